@@ -128,6 +128,10 @@ func C02(o *core.Options) int {
 	if os.Getenv("VERIF_ONLY_FLAT") != "" { // development aid
 		models = nil
 	}
+	if os.Getenv("VERIF_ONLY_WIDE") != "" { // development aid
+		c02Wide(o, r)
+		return r.Finish()
+	}
 	if os.Getenv("VERIF_ONLY_FASTPATH") != "" { // development aid
 		c02FastPaths(o, r)
 		return r.Finish()
@@ -314,6 +318,8 @@ func C02(o *core.Options) int {
 	lap("fastpaths")
 	c02Wide(o, r)
 	lap("listobjects-wide")
+	c02ListObjects(o, r, models)
+	lap("listobjects")
 	so := e2.SweepOpts{K: 2, ServerOpts: []server.OpenFGAServiceV1Option{server.WithRequestTimeout(0)}}
 	// chains with a leftover tuple: recursive relations over THREE objects, two valid tuples and one stored tuple
 	// that the model in use does not admit (it differs from an admitted one in its condition, shape or type; it
@@ -386,8 +392,6 @@ func C02(o *core.Options) int {
 	})
 	nodes = e2.RequestNodes(ref.DefaultUniverse())
 	lap("flat")
-	c02ListObjects(o, r, models)
-	lap("listobjects")
 	// the broad family sweep last: it is the part an internal deadline may cut
 	so.K, so.U = 2, nil
 	e2.Sweep(r, models, so, body)
@@ -655,8 +659,8 @@ func c02Tunings() []c02Tun {
 	return []c02Tun{
 		{"default", nil},
 		{"breadth1-reads1", []server.OpenFGAServiceV1Option{server.WithResolveNodeBreadthLimit(1), server.WithMaxConcurrentReadsForListObjects(1), server.WithMaxConcurrentReadsForCheck(1)}},
-		{"pipeline-1-1-1", []server.OpenFGAServiceV1Option{server.WithListObjectsPipelineEnabled(true), server.WithListObjectsChunkSize(1), server.WithListObjectsBufferCapacity(1), server.WithListObjectsNumProcs(1)}},
-		{"pipeline-2-2-3", []server.OpenFGAServiceV1Option{server.WithListObjectsPipelineEnabled(true), server.WithListObjectsChunkSize(2), server.WithListObjectsBufferCapacity(2), server.WithListObjectsNumProcs(3)}},
+		{"pipeline-1-1-1", []server.OpenFGAServiceV1Option{server.WithExperimentals("pipeline_list_objects"), server.WithListObjectsPipelineEnabled(true), server.WithListObjectsChunkSize(1), server.WithListObjectsBufferCapacity(1), server.WithListObjectsNumProcs(1)}},
+		{"pipeline-2-2-3", []server.OpenFGAServiceV1Option{server.WithExperimentals("pipeline_list_objects"), server.WithListObjectsPipelineEnabled(true), server.WithListObjectsChunkSize(2), server.WithListObjectsBufferCapacity(2), server.WithListObjectsNumProcs(3)}},
 		{"weighted", []server.OpenFGAServiceV1Option{server.WithExperimentals("enable-list-objects-optimizations")}},
 	}
 }
